@@ -11,7 +11,9 @@ package main
 //   agg_order     aggregating the received Shamir shares in another order gives the same share
 //   history / receiver-reuse probes: see c15_history.go; wrapped-difference points and N = 7, 8
 //                 with 61-bit moduli: see c15_wide.go; both documented forms of NewCombiner's `others`
-//                 (own point included / excluded / duplicated) x every t incl. t = N: see c15_combiner.go
+//                 (own point included / excluded / duplicated) x every t incl. t = N: see c15_combiner.go;
+//                 one Combiner serving a sequence of groups (re-used active-list buffers) and the
+//                 structure / rank of the Shamir polynomial: see c15_sequence.go
 //   reconstruct_collide   at points that are distinct non-zero uint64s but collide modulo one of
 //                 the primes (the hypothesis the Lean reconstruction proof forces): the two colliding
 //                 parties' GenAdditiveShare must return an error and leave the output untouched, the
@@ -559,6 +561,8 @@ func genC15(c *Ctx) {
 	c15WrapDiff(c, sets)
 	c15Wide(c, sets)
 	c15CombinerForms(c, sets)
+	c15Sequences(c, sets)
+	c15GenPoly(c, sets)
 }
 
 // c15Boundary: the points the proof excludes — distinct non-zero uint64s that collide modulo a
